@@ -583,6 +583,12 @@ def _make_evalable_objectives_from_formula(
         # this is going to lead us right back to where we started, then don't do it.
         chosen = []
         for ot in others.values():
+            if transform_terms:
+                # Each transformed term stands for `term = proxy(enumerated) * weight(unknown)`. Terms whose
+                # dropped unknown factors differ have different weights, so their proxies must be tracked
+                # separately: a sum of proxies does not order the sum of the terms.
+                chosen.extend(ot)
+                continue
             joined = type(f)(*ot)
             if joined != f:
                 chosen.append(joined)
